@@ -323,12 +323,13 @@ def r5_correctly_signed_message(run):
     run.check(bool(te), "R5", fi.qual + "::TypeError", "raises TypeError",
               "TypeError no longer raised", fi.loc(), nontrivial=False)
     # parser chosen from msgtype
-    at = [s for s in walk_no_nested(fi.node) if isinstance(s, ast.Assign) and
-          unparse(s.targets[0]) == "attr"]
-    run.check(len(at) == 1 and "_from_string" in unparse(at[0].value) and
-              "msgtype" in unparse(at[0].value), "R5", fi.qual + "::parser-name",
+    # (the name handed to getattr(saml / samlp, <name>), temporaries expanded)
+    at = [cfg.itext(c.args[1], nd.id) for nd, c in cfg.call_nodes("getattr")
+          if len(c.args) >= 2 and unparse(c.args[0]) in ("saml", "samlp")]
+    run.check(bool(at) and all("_from_string" in t and "msgtype" in t
+                               for t in at), "R5", fi.qual + "::parser-name",
               "parser is '<msgtype>_from_string'",
-              "parser name derives from %s" % [unparse(a.value) for a in at],
+              "parser name derives from %s" % at,
               fi.loc(), nontrivial=False)
 
 
